@@ -23,16 +23,18 @@ RULE = (
   "non-zero Jacobian that was compared; distinct = canonical hash of the spec"
 )
 BOUNDS = {
-  "quick": "k<=1: all 5 trees x both joint patterns; k=2: all 5 trees, joint pattern alternating with (tree index + feature-set index)",
-  "thorough": "k<=2: all 5 trees x both joint patterns; k=3: all 5 trees, joint pattern alternating",
+  "quick": "k<=1: all 5 trees x both joint patterns x all options; k=2: all 5 trees x core options (2 per group, 4 contacts), joint pattern alternating with (tree index + feature-set index)",
+  "thorough": "k<=2: all 5 trees x both joint patterns x all options; k=3: all 5 trees x core options, joint pattern alternating",
 }
 ASSUMPTIONS = [
   "MuJoCo C 3.13 (python bindings) is the reference, trusted only where its dense and sparse Jacobian modes agree",
   "rows whose Jacobian is identically zero (max|J| < 1e-6 on a side) are removed from both sides before rows/counts are compared",
-  "tolerance classes: J f32 (2e-5), pos/margin/D/aref/frictionloss/vel f32dyn (2e-4), each relative to 1+max|reference| of the field over the rows of one constraint kind",
+  "tolerance classes: J f32 (2e-5; contact rows 1e-4 because they multiply two f32-class collision outputs), pos/margin/D/aref/frictionloss/vel f32dyn (2e-4), each relative to 1+max|reference| of the field over the rows of one constraint kind",
   "boundary rule: a limit/contact row whose |pos - margin| < 1e-5 may be present on either side",
   "contacts only between closed-form primitive pairs (plane/sphere/capsule/box vs sphere/capsule); real values from curated alphabets (VERIF_SEED mod 4)",
   "data comes from make_data (fresh) followed by a single forward(); CPU backend only",
+  "solver {Newton, CG} only crossed with the sparse Jacobian: the row builders are specialised on (is_sparse, is_sparse and newton) only, so dense+CG runs the same assembly code as dense+Newton",
+  "sparse runs use an ample njmax_nnz (njmax*nv) so that row parity stays observable; that make_data's default njmax_nnz covers the rows actually produced is checked separately (capacity:default_njmax_nnz)",
 ]
 BUDGET = {"quick": 900, "thorough": 4000}
 
@@ -42,18 +44,45 @@ FIELDS = (("J", "f32"), ("pos", "f32dyn"), ("margin", "f32dyn"), ("D", "f32dyn")
 ZERO_J = 1e-6
 
 
+# reduced option alphabet used for the larger feature sets (two most different options per group, four contacts)
+CORE = {
+  "connect": ("body", "site"),
+  "weld": ("body", "world"),
+  "jeq": ("two", "offrt"),
+  "teq": ("one", "two"),
+  "dfl": ("one", "all"),
+  "tfl": ("fixed", "spatial"),
+  "hlim": ("lo", "margin"),
+  "slim": ("lo", "hi"),
+  "blim": ("viol", "out"),
+  "tlim": ("hi", "sp_hi"),
+  "con": ("c1w", "c3bb", "c6w", "adhmargin"),
+}
+
+
 def scenarios(tier, seed):
   variant = seed % 4
   trees = space.trees(3)
-  full_k, alt_k = (1, 2) if tier == "quick" else (2, 3)
-  out = []
-  for fi, fs in enumerate(cs.feature_sets(alt_k)):
-    for ti, parents in enumerate(trees):
-      pats = (0, 1) if len(fs) <= full_k else ((ti + fi) % 2,)
-      for pat in pats:
-        scn = dict(parents=list(parents), pattern=pat, feats=fs, state=1, variant=variant)
-        if cs.applicable(scn):
-          out.append(scn)
+  out, seen = [], set()
+
+  def add(fsets, pats_of):
+    for fi, fs in enumerate(fsets):
+      for ti, parents in enumerate(trees):
+        for pat in pats_of(ti, fi):
+          scn = dict(parents=list(parents), pattern=pat, feats=fs, state=1, variant=variant)
+          k = util.sha(scn)
+          if cs.applicable(scn) and k not in seen:
+            seen.add(k)
+            out.append(scn)
+
+  both = lambda ti, fi: (0, 1)
+  alt = lambda ti, fi: ((ti + fi) % 2,)
+  if tier == "quick":
+    add(cs.feature_sets(1), both)
+    add(cs.feature_sets(2, options=CORE), alt)
+  else:
+    add(cs.feature_sets(2), both)
+    add(cs.feature_sets(3, options=CORE), alt)
   out.sort(key=lambda s: len(s["feats"]))
   return out
 
@@ -144,6 +173,11 @@ def compare_rows(c, pre, mjm, rows_w, keep_w, rows_m, keep_m, idmap, tols=None, 
     n += len(pr)
     for f, tol in FIELDS:
       t = (tols or {}).get(f, tol)
+      if f == "J" and kind.startswith("contact") and tols is None:
+        # a contact row is (frame row) x (point Jacobian at the contact position): a product of two quantities that are
+        # themselves only f32-class accurate (collision output, <=2e-5), summed over up to two friction terms; measured
+        # max 4.3e-5 on the unchanged tree.  Index/sign defects give O(0.1).
+        t = 1e-4
       c.close(f"{pre}{f}[{kind}]", rows_w[f][ia], rows_m[f][ib], t, vkey=f"{f}:{kind}")
   return n
 
@@ -241,10 +275,15 @@ def execute(scn):
       ndegenerate += not trusted[-1]
     for jac in (0, 1):
       mjm.opt.jacobian = jac
-      for solver in (2, 1):  # Newton, CG
+      for solver in (2, 1) if jac else (2,):  # Newton, CG
         mjm.opt.solver = solver
         m = mjw.put_model(mjm)
-        d = mjw.make_data(mjm, nworld=2)
+        if jac:
+          if solver == 2:
+            d_default = mjw.make_data(mjm)
+          d = mjw.make_data(mjm, nworld=2, njmax_nnz=int(d_default.njmax) * mjm.nv)
+        else:
+          d = mjw.make_data(mjm, nworld=2)
         for w, (qpos, qvel) in enumerate(states):
           util.copy_state(util.mj_data(mjm, qpos=qpos, qvel=qvel), d, world=w)
         if info["eq_off"]:
@@ -255,6 +294,10 @@ def execute(scn):
         nconfig += 1
         tag = f"cone{cone}:jac{jac}:sol{solver}:"
         pend = []
+        if jac and solver == 2:
+          need = max(int(np.sum(d.efc.J_rownnz.numpy()[w][: int(d.nefc.numpy()[w])])) for w in range(2))
+          dflt = int(d_default.njmax_nnz)
+          c.true(tag + "default njmax_nnz", dflt >= need, f"make_data default njmax_nnz={dflt} < {need} non-zeros produced by this state (rows are dropped silently)", vkey="capacity:default_njmax_nnz")
         for w in range(2):
           pre = f"{tag}w{w}:"
           nefc, rows = util.efc_dense(m, d, w)
